@@ -5,6 +5,8 @@ from core import (strip_site, same_value, fmt, enum_paths, path_atoms, path_call
                   is_effectful, closure_captures, back_edge_heads, dashmap_call)
 from weight import WeightModel
 
+from sym import ipaths
+
 LEVEL = "other"
 EXPLANATION = ("The inputs of admission are only ever compared, so its behaviour is a finite decision table, extracted "
                "from MIR paths and compared with the TinyLFU specification: the over-weight / fits / must-evict rows of "
@@ -26,35 +28,34 @@ def run(ctx):
     ctx.floor("R06.1", "admission functions", len(admit), 1)
     evict_fns = set()
     # ---- R06.1 ----------------------------------------------------------------------------------
+    status_fns = {n for n, g in F.fns.items() if g.rec.get("ret", "").endswith("CommandStatus") and g.kind != "Closure"}
     for f in admit:
         ctx.touch(f)
         kd = ("param", 2)
         w = ("field", kd, "weight")
-        paths = enum_paths(f)
+        paths = ipaths(F, f, stop=lambda n, me=f.name: n in charge_fns or n in dec_fns or n in M.qnames or (n in status_fns and n != me), depth=3)
         ctx.analysed["paths"] += len(paths)
         bad = []
         rows = set()
         for p in paths:
-            atoms = path_atoms(f, p)
-            calls = path_calls(f, p)
-            over = [a for a in atoms if a[0] == "bool" and a[1][0] == "binop" and a[1][1] == "Lt" and strip_site(a[1][3]) == w and is_max(a[1][2])]
-            adds = [(b, t) for b, t in calls if t.get("rpath") in charge_fns]
-            dels = [(b, t) for b, t in calls if t.get("rpath") in dec_fns]
-            ev = [(b, t) for b, t in calls if t["res"] == "item" and t.get("rlocal") and F.fns.get(t["rpath"]) is not None
-                  and F.fns[t["rpath"]].rec.get("ret", "").endswith("CommandStatus")]
-            r = path_return(f, p, atoms)
+            over = [a for a in p.atoms if a[0] == "bool" and a[1][0] == "binop" and a[1][1] == "Lt" and strip_site(a[1][3]) == w and is_max(a[1][2])]
+            over += [(a[0], a[1], not a[2], a[3]) for a in p.atoms if a[0] == "bool" and a[1][0] == "binop" and a[1][1] == "Le" and strip_site(a[1][2]) == w and is_max(a[1][3])]
+            adds = p.calls(charge_fns)
+            dels = p.calls(dec_fns)
+            ev = [e for e in p.events if not e.log and e.callee in status_fns]
+            r = p.ret
             if not over:
                 bad.append(("the over-weight test (weight > max) is not evaluated first", p))
                 continue
             if over[0][2]:
                 rows.add("over-weight")
-                eff = [b for b, t in calls if is_effectful(site_effects(F, f, b))]
+                eff = [e for e in p.events if not e.log and is_effectful(site_effects(F, e.fn, e.bb))]
                 if adds or dels or ev or eff:
                     bad.append(("over-weight key causes effects", p))
                 if not (r[0] == "agg" and r[2] == "Rejected" and r[3][0][1][0] == "agg" and r[3][0][1][2] == "KeyWeightIsGreaterThanCacheWeight"):
                     bad.append(("over-weight key is not rejected for that reason", p))
                 continue
-            fits = [a for a in atoms if a[0] == "bool" and M.is_query_field(a[1], w, "1")]
+            fits = [a for a in p.atoms if a[0] == "bool" and M.is_query_field(a[1], w, "1")]
             if not fits:
                 bad.append(("space query for the incoming weight not consulted", p))
                 continue
@@ -62,28 +63,28 @@ def run(ctx):
                 rows.add("fits")
                 if len(adds) != 1 or dels or ev:
                     bad.append(("fitting key: must add once and evict nothing (adds=%d evictions=%d)" % (len(adds), len(dels) + len(ev)), p))
-                if not (r[0] == "agg" and r[2] == "Accepted"):
+                if p.ret_variant() != ("Accepted",):
                     bad.append(("fitting key is not Accepted", p))
             else:
                 rows.add("must-evict")
                 if len(ev) != 1:
                     bad.append(("no-space path must call the eviction loop once", p))
                     continue
-                eb, et = ev[0]
-                evict_fns.add(et["rpath"])
-                eres = f.origin_call(eb, et)
-                eargs = [f.op_origin(a) for a in et["args"]]
+                evict_fns.add(ev[0].callee)
+                eres = ev[0].res
+                eargs = list(ev[0].args)
                 if not (M.is_query_field(eargs[1], w, "0") and eargs[2] == kd):
                     bad.append(("eviction loop must receive the available space just queried and the incoming description", p))
-                v = [a for a in atoms if a[0] == "enum" and strip_site(a[1]) == strip_site(eres)]
-                acc = bool(v) and v[0][2] == ("Accepted",)
-                if (len(adds) == 1) != acc:
+                v = p.variant_of(eres)
+                acc = v == ("Accepted",)
+                if (len(adds) == 1) != acc or len(adds) > 1:
                     bad.append(("weight charged iff eviction accepted is violated", p))
-                if ret_variant(r) is None or (("Accepted" in ret_variant(r)) != acc):
+                rv = p.ret_variant()
+                if rv is None or ((rv == ("Accepted",)) != acc):
                     bad.append(("status returned is not the eviction loop's", p))
         ctx.check(not bad and rows == {"over-weight", "fits", "must-evict"}, "R06.1", "%s|admission-table" % f.name,
-                  "w > max -> Rejected(KeyWeightIsGreaterThanCacheWeight) without effects; fits -> add once, Accepted, nothing evicted; else eviction loop, add iff it accepted (%d paths)" % len(paths),
-                  f.where(), "; ".join("%s via %s" % (x, q[:8]) for x, q in bad[:3]) or str(sorted(rows)))
+                  "w > max -> Rejected(KeyWeightIsGreaterThanCacheWeight) without effects; fits -> add once, Accepted, nothing evicted; else eviction loop, add iff it accepted (%d symbolic paths)" % len(paths),
+                  f.where(), "; ".join("%s %s" % (x, q.show()) for x, q in bad[:3]) or str(sorted(rows)))
 
     # ---- R06.2 eviction loop -------------------------------------------------------------------------
     ctx.floor("R06.2", "eviction loop functions", len(evict_fns), 1)
